@@ -1274,7 +1274,40 @@ def r06_18(ctx: Ctx, rule: str = "R06.18") -> None:
     ctx.floor(rule, n, 4, "sequential section readers")
 
 
+def r06_23(ctx: Ctx, rule: str = "R06.23") -> None:
+    """members without a stream (empty files, directories handled by the member loop) belong to no folder: in an archive with several folders
+    Worker.extract collects them (`[f for f in self.files if f.emptystream]`) and hands them to extract_single on every path that follows -
+    the sequential arm, the parallel arm, and the arm of an archive without streams.  And each folder task's window is src_start PLUS the
+    positions of the folder's streams."""
+    f = ctx.prog.func("py7zr", "Worker.extract")
+    cfg = cfg_of(f.node)
+    colls = [n for n in walk(f.node) if isinstance(n, ast.Assign) and isinstance(n.targets[0], ast.Name) and isinstance(n.value, (ast.ListComp, ast.GeneratorExp))
+             and any(isinstance(x, ast.Attribute) and x.attr == "emptystream" for i_ in n.value.generators[0].ifs for x in ast.walk(i_)) and norm(n.value.generators[0].iter) == "self.files"]
+    ctx.floor(rule, len(colls), 2, "collections of stream-less members in Worker.extract")
+    for n in colls:
+        nm = n.targets[0].id
+        uses = [c for c in q.calls(f) if attr_tail(c) == "extract_single" and any(isinstance(a_, ast.Name) and a_.id == nm for a_ in c.args)]
+        ok = bool(uses) and cfg.every_path_to_exit_passes(q.node_for(f, n), [q.node_for(f, c) for c in uses])
+        ctx.check(ok, rule, f, n, "stream-less members are handed to extract_single on every path",
+                  f"Worker.extract collects the members without a stream in `{nm}` but does not hand them to extract_single on every path that follows: in an archive with several folders "
+                  "the empty files are never created (every fixture of the suite with empty files has one folder)", construct="empty members of a multi-folder archive")
+    for c in [c for c in q.calls(f) if q.enclosing_loops(f, c)]:
+        tup = next((k.value for k in c.keywords if k.arg == "args"), None)
+        args = list(tup.elts) if isinstance(tup, ast.Tuple) else (list(c.args) if attr_tail(c) == "extract_single" else [])
+        if len(args) < 5:
+            continue
+        for a_ in (args[3], args[4]):
+            if not any(isinstance(x, ast.Subscript) for x in ast.walk(a_)):
+                continue
+            ok = isinstance(a_, ast.BinOp) and isinstance(a_.op, ast.Add) and ("src_start" in norm(a_.left)) != ("src_start" in norm(a_.right))
+            ctx.check(ok, rule, f, c, "a folder's window is src_start + position",
+                      f"`{norm(a_)}` is not `self.src_start + positions[...]`: the folder task is given a window that does not start where the packed area starts", construct="window arithmetic")
+
+
 def run(ctx: Ctx) -> None:
+    r06_23(ctx)
+    from . import c04 as _c04
+    _c04.r04_17(ctx, rule="R06.22")  # a member / folder without a stored CRC is a valid archive
     from . import c10 as _c10
     _c10.r10_11(ctx)  # kinds as the format assigns them (is_directory), under C06 too
     shared.layout_agreement(ctx, "R06.19")
